@@ -671,7 +671,7 @@ func TestCheck(t *testing.T) {
 		"list/non-null nestings, distributed over services following thunder's federation conventions (_federation field, Federation.<svc>_<Obj>(keys)); per-service views of shared enums/input objects may lack a value/optional field; " +
 		"versions = base view + 0-3 mutations (add/remove field, arg (optional/required), enum value, union member, input field; flip nullability of outputs/args/input fields at any nesting level; wrap/unwrap list; change scalar), unreachable types pruned. " +
 		"Generator B (real, 20%): schemabuilder services built from feature bitmasks (registered field funcs, arg structs, enum maps, union members, pointer vs value returns), JSON from introspection.ComputeSchemaJSON, real arg parsers. " +
-		"About 15% of generator-A sets also contain a type NAME with different KINDS on two sides (custom scalar vs enum/input/object/union across services, or across versions of one service) that no common field refers to; these must be rejected under every naming. " +
+		"About 15% of generator-A sets also contain a type NAME with different KINDS on two sides (custom scalar vs enum/input/object/union across services, or across versions of one service) that no common field refers to; these must be rejected under every naming. About 9% of multi-service generator-A sets make one service (or one version of it) expose an object as a plain object that another service federates; thunder refuses such sets and the refusal must not depend on naming. " +
 		"Each set is evaluated under its base naming, the order-reversing naming, 2 random namings whose introspection lists (types, fields, args, inputFields, enumValues, possibleTypes) are shuffled per schema, and the base naming with shuffled lists (MergeIntrospectionSchemas + ConvertVersionedSchemas), compared with a set-semantics reference merge, checked for closure, " +
 		"and queries generated from the merged introspection only are executed through federation.Executor with fabricating clients; every recorded sub-query is PrepareQuery'd against every version's own schema of the receiving service. " +
 		"Non-trivial = >=2 services AND >=1 multi-version service AND merge succeeded AND >=1 element on which the sides differ (dropped by intersection, contributed by one service only inside a shared field/type, or nullability disagreement). " +
